@@ -124,3 +124,80 @@ func VH_C03_text_data() {
 		vAssert(t == nil, "C03.text.not-nul-terminated-is-empty")
 	}
 }
+
+// Defaults: an absent (or differently typed) pointer reads as the schema default - the root object
+// of the default message - and a present one as itself; a cut default message is an error, never a
+// panic; text/data defaults are returned exactly.
+func VH_C03_defaults() {
+	seg := vSeg()
+	var p Ptr
+	kind := vConc(int(vNondetU8()), 4)
+	switch kind {
+	case 0:
+		p = vStructIn(seg).ToPtr()
+	case 1:
+		p = vListIn(seg).ToPtr()
+	case 2:
+		p = Interface{seg: seg, cap: CapabilityID(vNondetU32())}.ToPtr()
+	default:
+		// the null pointer
+	}
+	// the defaults: a struct with one data word, and a list of two 16-bit elements
+	x := vNondetU64()
+	dm, ds := vNewMsg()
+	root, err := NewRootStruct(ds, ObjectSize{DataSize: 8})
+	vAssume(err == nil)
+	root.SetUint64(0, x)
+	sdef, err := dm.Marshal()
+	vAssume(err == nil)
+	lm, lseg := vNewMsg()
+	ll, err := NewUInt16List(lseg, 2)
+	vAssume(err == nil)
+	e0 := vNondetU16()
+	ll.Set(0, e0)
+	vAssume(lm.SetRoot(ll.ToPtr()) == nil)
+	ldef, err := lm.Marshal()
+	vAssume(err == nil)
+	vReach("entry")
+	s, err := p.StructDefault(sdef)
+	if kind == 0 {
+		vAssert(err == nil && s.seg == p.seg && s.off == p.off && s.size == p.size, "C03.default.struct.present-pointer-reads-as-itself")
+	} else {
+		vAssert(err == nil && s.Uint64(0) == x && s.size.DataSize == 8, "C03.default.struct.absent-pointer-reads-as-the-default-root")
+	}
+	l, err := p.ListDefault(ldef)
+	if kind == 1 {
+		vAssert(err == nil && l.seg == p.seg && l.off == p.off && l.length == int32(p.lenOrCap), "C03.default.list.present-pointer-reads-as-itself")
+	} else {
+		vAssert(err == nil && l.Len() == 2 && UInt16List{l}.At(0) == e0, "C03.default.list.absent-pointer-reads-as-the-default-root")
+	}
+	q, err := p.Default(sdef)
+	if kind != 3 {
+		vAssert(err == nil && q.seg == p.seg && q.off == p.off, "C03.default.ptr.present-pointer-reads-as-itself")
+	} else {
+		vAssert(err == nil && q.Struct().Uint64(0) == x, "C03.default.ptr.absent-pointer-reads-as-the-default-root")
+	}
+	// a cut default message is an error
+	c := vNondetInt()
+	vAssume(c >= 0 && c < len(sdef))
+	if kind != 0 {
+		_, cerr := p.StructDefault(sdef[:c:c])
+		vAssert(cerr != nil, "C03.default.cut-default-is-an-error")
+	}
+	// nil default: absent pointers read as the zero value
+	s0, err0 := Ptr{}.StructDefault(nil)
+	l0, err1 := Ptr{}.ListDefault(nil)
+	vAssert(err0 == nil && err1 == nil && s0.seg == nil && l0.seg == nil, "C03.default.nil-default-is-the-zero-value")
+	// text and data
+	t := p.TextDefault("dflt")
+	if tb, ok := p.text(); ok {
+		vAssert(len(t) == len(tb), "C03.default.text.present")
+	} else {
+		vAssert(t == "dflt", "C03.default.text.absent-reads-as-default")
+		vAssert(string(p.TextBytesDefault("dflt")) == "dflt", "C03.default.textbytes.absent-reads-as-default")
+	}
+	d := p.DataDefault([]byte{7, 7})
+	if !isOneByteList(p) {
+		vAssert(len(d) == 2 && d[0] == 7, "C03.default.data.absent-reads-as-default")
+	}
+}
